@@ -19,6 +19,8 @@ import (
 	"fmt"
 	"math/rand"
 	"os"
+	"os/exec"
+	"runtime/debug"
 	"strconv"
 	"strings"
 	"testing"
@@ -314,6 +316,7 @@ func TestVfC18Codec(t *testing.T) {
 	}
 
 	// (b) streams assembled by TLC
+	var huge []vfC18Stream
 	if sp := os.Getenv("VF_C18_STREAMS"); sp != "" {
 		in, err := os.Open(sp)
 		if err != nil {
@@ -333,6 +336,10 @@ func TestVfC18Codec(t *testing.T) {
 			if s.Alg != alg {
 				continue
 			}
+			if strings.HasPrefix(s.Cls, "length-prefix-huge") {
+				huge = append(huge, s) // a decoder may allocate gigabytes for these: a child process runs them
+				continue
+			}
 			if decVec("gen:"+s.Cls, vfC18Bytes(s.Stream)) {
 				ndec++
 			} else {
@@ -340,6 +347,36 @@ func TestVfC18Codec(t *testing.T) {
 			}
 		}
 		in.Close()
+	}
+	// declared lengths at the 2^31 / 2^32 boundaries, in a child process: an allocation failure of the runtime there is
+	// not a verdict (the cases are reported as not executed); a panic of Decode is recovered and recorded
+	hugeRun, hugeLost := 0, 0
+	if len(huge) > 0 {
+		hp := outPath + ".huge"
+		hf, err := os.Create(hp)
+		if err != nil {
+			t.Fatal(err)
+		}
+		for _, s := range huge {
+			b, _ := json.Marshal(s)
+			hf.Write(append(b, '\n'))
+		}
+		hf.Close()
+		cmd := exec.Command(os.Args[0], "-test.run", "^TestVfC18CodecHuge$", "-test.timeout", "300s")
+		cmd.Env = append(os.Environ(), "VF_C18_HUGE_STREAMS="+hp)
+		o, _ := cmd.CombinedOutput()
+		for _, ln := range strings.Split(string(o), "\n") {
+			if strings.HasPrefix(ln, "VFVEC ") {
+				var m map[string]interface{}
+				if json.Unmarshal([]byte(strings.TrimPrefix(ln, "VFVEC ")), &m) == nil {
+					emit(m)
+					hugeRun++
+					ndec++
+				}
+			}
+		}
+		hugeLost = len(huge) - hugeRun
+		os.Remove(hp)
 	}
 	w.Flush()
 
@@ -378,7 +415,44 @@ func TestVfC18Codec(t *testing.T) {
 			bigOK++
 		}
 	}
-	sum, _ := json.Marshal(map[string]interface{}{"alg": alg, "enc": nenc, "dec": ndec, "skipped_huge_declared": nskipped,
+	sum, _ := json.Marshal(map[string]interface{}{"alg": alg, "enc": nenc, "dec": ndec, "skipped_huge_declared": nskipped, "boundary_prefix_run": hugeRun, "boundary_prefix_not_executed": hugeLost,
 		"big_ok": bigOK, "big_bad": append([]string{}, bigBad...), "big_max": sizes[len(sizes)-1]})
 	fmt.Printf("VFSUMMARY %s\n", sum)
+}
+
+// TestVfC18CodecHuge (child process): Decode of streams whose declared length is at the 2^31 / 2^32 boundary.
+func TestVfC18CodecHuge(t *testing.T) {
+	sp := os.Getenv("VF_C18_HUGE_STREAMS")
+	if sp == "" {
+		t.Skip("not a child")
+	}
+	c := vfC18NewCodec()
+	in, err := os.Open(sp)
+	if err != nil {
+		t.Fatal(err)
+	}
+	defer in.Close()
+	sc := bufio.NewScanner(in)
+	sc.Buffer(make([]byte, 1<<20), 1<<20)
+	for sc.Scan() {
+		var s vfC18Stream
+		if json.Unmarshal([]byte(sc.Text()), &s) != nil || s.Alg != c.Name() {
+			continue
+		}
+		stream := vfC18Bytes(s.Stream)
+		o, err, pan := vfC18SafeDecode(c, stream)
+		olen := len(o)
+		if olen > 64 {
+			o = o[:64]
+		}
+		if o == nil {
+			o = []byte{}
+		}
+		b, _ := json.Marshal(map[string]interface{}{"k": "dec", "cls": "gen:" + s.Cls, "stream": s.Stream, "out": vfC18Ints(o), "outlen": olen,
+			"err": vfC18ErrText(err), "panic": pan})
+		fmt.Printf("VFVEC %s\n", b)
+		o = nil
+		debug.FreeOSMemory()
+	}
+	fmt.Println("VFCHILD done")
 }
